@@ -291,6 +291,14 @@ func (x *evmExec) sizeCheck() int {
 	if sz < 0 {
 		x.find("ethTxPool.Size", "size-negative", "", fmt.Sprintf("Size()=%d", sz))
 	}
+	// each queue has its own configured bound (read through the read-only snapshot)
+	snap := x.w.c.App.VerifPoolSnapshot()
+	if len(snap.Pending) > snap.PendingLimit {
+		x.find("ethTxPool.promoteExecutables", "queue-exceeds-bound", "pending", fmt.Sprintf("%d transactions pending, configured limit %d", len(snap.Pending), snap.PendingLimit))
+	}
+	if len(snap.Waiting) > snap.WaitingLimit {
+		x.find("ethTxPool.addWaiting", "queue-exceeds-bound", "waiting", fmt.Sprintf("%d transactions waiting, configured limit %d", len(snap.Waiting), snap.WaitingLimit))
+	}
 	return sz
 }
 
